@@ -42,10 +42,13 @@ def cases(tier, seed):
                 # (wound + Moreau: every split step also in the quick tier - the step in which the joint completes its turn is
                 #  the interesting restart point, and Moreau evaluates the joint at the midpoint, not at the stored state)
                 out.append({"scenario": sc, "solver": sv_, "rep": r, "all_k": tier == "thorough" or (sc in ("wound", "oscillator") and sv_ == "Moreau")})
+        # runs that start at a negative time and are split exactly at t = 0.0
+        for sc, sv_ in (("carrier", "Moreau"), ("chain", "Rattle"), ("ball", "Moreau"), ("carrier", "BackwardEuler"), ("maxwell", "ScipyIVP")):
+            out.append({"scenario": sc, "solver": sv_, "rep": r, "all_k": False, "neg_t0": True})
     return out
 
 
-def _build(rng, sc, horizon=0.15):
+def _build(rng, sc, horizon=0.15, t0=0.0):
     from cardillo import System
     from cardillo.discrete import RigidBody, PointMass, Frame
     from cardillo.constraints import Revolute, Spherical, FixedDistance
@@ -53,14 +56,14 @@ def _build(rng, sc, horizon=0.15):
     from cardillo.force_laws import Spring, MaxwellElement
     from cardillo.interactions import TwoPointInteraction
     from cardillo.contacts import Sphere2Plane, Sphere2Sphere
-    S = System()
+    S = System(t0=t0)
     info = {}
     if sc == "carrier":
         # pendulum hinged on a carrier Frame with prescribed translating and rocking motion (a joint partner without coordinates
         # whose pose depends on time: at a restart time it is somewhere else than at the first assembly)
         mot = gen.Motion(rng, moving=True, rotating=True)
         carrier = mot.frame(Frame, name="carrier")
-        t0_ = 0.0
+        t0_ = t0
         A_c, r_c = mot.A(t0_), mot.r(t0_)
         hinge = r_c + A_c @ (rng.normal(size=3) * 0.3)
         P = rng.normal(size=4); P /= np.linalg.norm(P)
@@ -197,11 +200,17 @@ def run_case(spec, ctx):
     with gen.quiet(), warnings.catch_warnings():
         warnings.simplefilter("ignore")
         seed_build = int(rng.integers(1 << 30))
-        S, info = _build(np.random.default_rng(seed_build), sc, horizon=N * DT)
+        T0 = 0.0
+        if spec.get("neg_t0"):
+            k0 = int(rng.integers(2, N - 1))
+            T0 = -(k0 * DT)          # the k0-th grid point t0 + k0*dt is exactly 0.0
+            det["t0"] = T0; det["k_at_time_zero"] = k0
+            ctx.cls("restart:at_time_exactly_zero")
+        S, info = _build(np.random.default_rng(seed_build), sc, horizon=N * DT, t0=T0)
         det.update(info)
         try:
             S.assemble(options=SolverOptions())
-            full = _solve(solver, S, N * DT, opts)
+            full = _solve(solver, S, T0 + N * DT, opts)
         except Exception as e:
             ctx.undecided(f"reference run failed: {type(e).__name__}: {e}"[:150]); ctx.sig([det], nontrivial=False); return
         tF, qF, uF = np.asarray(full.t), np.asarray(full.q), np.asarray(full.u)
@@ -209,16 +218,18 @@ def run_case(spec, ctx):
             # the reference run itself was truncated by the solver (announced non-convergence, C21's subject): nothing to split
             ctx.undecided(f"reference run returned only {len(tF)} of {N + 1} instants"); ctx.sig([det], nontrivial=False); return
         ks = list(range(1, N)) if spec["all_k"] else sorted(set(int(x) for x in np.linspace(1, N - 1, 6)))
+        if spec.get("neg_t0"):
+            ks = sorted(set(ks[:3] + [k0]))
         probe_seed = int(rng.integers(1 << 30))
         moved = False
         for k in ks:
             ctx.cls(f"scenario:{sc}:{solver}")
             exk = {**det, "k": k, "t_k": float(tF[k])}
             # fresh system, run to the split time
-            S1, _ = _build(np.random.default_rng(seed_build), sc, horizon=N * DT)
+            S1, _ = _build(np.random.default_rng(seed_build), sc, horizon=N * DT, t0=T0)
             try:
                 S1.assemble(options=SolverOptions())
-                first = _solve(solver, S1, k * DT, opts)
+                first = _solve(solver, S1, T0 + k * DT, opts)
             except Exception as e:
                 ctx.undecided(f"first segment failed: {type(e).__name__}"); continue
             if len(np.asarray(first.t)) <= k:
@@ -271,6 +282,12 @@ def run_case(spec, ctx):
             ctx.mon("trajectory")
             q2, u2, t2 = np.asarray(second.q), np.asarray(second.u), np.asarray(second.t)
             m = min(len(t2), len(tF) - k)
+            # the continued run covers the remaining instants of the uninterrupted one (same times, same number of them)
+            if len(t2) != len(tF) - k or np.abs(t2[:m] - tF[k:k + m]).max() > 1e-9:
+                ctx.violation(f"{solver}.restart", "the run continued from the re-initialised system does not cover the remaining time instants of the uninterrupted run",
+                              {**exk, "instants_continued": int(len(t2)), "instants_remaining": int(len(tF) - k), "t_first_continued": float(t2[0]), "t_k": float(tF[k]),
+                               "t_last_continued": float(t2[-1]), "t_final": float(tF[-1])})
+                continue
             dq = np.abs(q2[:m] - qF[k:k + m]).max()
             du = np.abs(u2[:m] - uF[k:k + m]).max()
             ctx.extra("max_dq", float(dq))
